@@ -82,11 +82,13 @@ func (s *grpcServer) Initialize(
 			s.logUnary,
 			grpc_prometheus.UnaryServerInterceptor,
 			UnaryFaultInjector(s.faults),
+			s.recoverUnary,
 		),
 		grpc.ChainStreamInterceptor(
 			s.logStream,
 			grpc_prometheus.StreamServerInterceptor,
 			StreamFaultInjector(s.faults),
+			s.recoverStream,
 		),
 		grpc.KeepaliveEnforcementPolicy(keepalive.EnforcementPolicy{
 			// be tolerant of aggressive client keepalives
@@ -116,6 +118,40 @@ func (s *grpcServer) Initialize(
 	reflection.Register(s.server)
 
 	return nil
+}
+
+// recoverUnary answers a request whose handler panicked (e.g. on a field value
+// an action constructor rejects) with an Internal status instead of letting
+// the panic terminate the whole server process.
+func (s *grpcServer) recoverUnary(
+	ctx context.Context,
+	req interface{},
+	info *grpc.UnaryServerInfo,
+	handler grpc.UnaryHandler,
+) (resp interface{}, err error) {
+	defer func() {
+		if r := recover(); r != nil {
+			s.logger.Error().Interface("panic", r).Str("method", info.FullMethod).Msg("recovered from handler panic")
+			resp, err = nil, status.Errorf(codes.Internal, "internal error: %v", r)
+		}
+	}()
+	return handler(ctx, req)
+}
+
+// recoverStream is the streaming equivalent of recoverUnary.
+func (s *grpcServer) recoverStream(
+	srv interface{},
+	ss grpc.ServerStream,
+	info *grpc.StreamServerInfo,
+	handler grpc.StreamHandler,
+) (err error) {
+	defer func() {
+		if r := recover(); r != nil {
+			s.logger.Error().Interface("panic", r).Str("method", info.FullMethod).Msg("recovered from handler panic")
+			err = status.Errorf(codes.Internal, "internal error: %v", r)
+		}
+	}()
+	return handler(srv, ss)
 }
 
 func (s *grpcServer) logUnary(
